@@ -47,6 +47,49 @@ def specParse (assign : Bytes) : Option (List Asg) :=
   let body := lines.takeWhile (fun l => l.head? != some DOT)
   if body.length = lines.length then none else allSome (body.map specLine)
 
+/-! ## what a cdb file says: its records in file order (an independent reading of the format, like cdbdump) -/
+
+/-- the records laid out from the start of `bytes`, `remaining` bytes of record area left -/
+def dumpRecs : Nat → Bytes → Nat → Option (List (Bytes × Bytes))
+  | 0, _, _ => none
+  | fuel + 1, bytes, remaining =>
+    if remaining = 0 then some [] else
+    match bytes with
+    | a :: b :: c :: d :: e :: f :: g :: h :: rest =>
+      let kl := le32 a b c d
+      let dl := le32 e f g h
+      if remaining < 8 + kl + dl then none else
+      let key := rest.take kl
+      let r2 := rest.drop kl
+      let data := r2.take dl
+      if key.length = kl ∧ data.length = dl then
+        (dumpRecs fuel (r2.drop dl) (remaining - (8 + kl + dl))).map ((key, data) :: ·)
+      else none
+    | _ => none
+
+/-- records occupy the file from offset 2048 up to the first hash table (the pointer of header entry 0) -/
+def cdbDump (f : Bytes) : Option (List (Bytes × Bytes)) :=
+  match read8 f 0 with
+  | none => none
+  | some (pos0, _) => if pos0 < 2048 then none else dumpRecs (f.length + 1) (f.drop 2048) (pos0 - 2048)
+
+/-- the eight bytes `pack a ++ pack b` occur somewhere in the file: ∃ o, read8 f o = (a, b) -/
+def hasWordPair (f : Bytes) (a b : Nat) : Bool :=
+  let pat := pack a ++ pack b
+  let rec go : Bytes → Bool
+    | [] => false
+    | l@(_ :: r) => pat.isPrefixOf l || go r
+  go f
+
+/-- the predicate of `C11_cdb_hit_sound`, given the file position `dpos` at which the reader stopped: the record
+    `(k, d)` with its header is in the file right before/at `dpos`, and some slot holds `(hash k, position of the record)` -/
+def hitBacked (f k d : Bytes) (dpos : Nat) : Bool :=
+  let p := dpos - 8 - k.length
+  decide (8 + k.length ≤ dpos) && read8 f p == some (k.length, d.length) &&
+  (f.drop (p + 8)).take (k.length + d.length) == k ++ d &&
+  decide (p + 8 + k.length + d.length ≤ f.length) &&
+  hasWordPair f (hashKey k).toNat p
+
 /-! ## which assignment an address gets -/
 
 def firstExact (tbl : List Asg) (l : Bytes) : Option Asg := tbl.find? (fun a => !a.wild && a.name == l)
